@@ -186,8 +186,11 @@ func BuildEnvelope(
 }
 
 // matchPrivKeys finds which envelope keypairs each private key corresponds to.
-// Returns a map from envelope keypair index to the matching private key.
-func matchPrivKeys(env *Envelope, privKeys []crypto.PrivKey) (map[int]crypto.PrivKey, error) {
+// Returns a map from envelope keypair index to the private keys whose public key
+// is that keypair, in the order offered. More than one key can claim a keypair
+// (a key object whose public half does not belong to its private half, or the
+// same key offered twice): the caller tries each of them. Nil keys are skipped.
+func matchPrivKeys(env *Envelope, privKeys []crypto.PrivKey) (map[int][]crypto.PrivKey, error) {
 	// Pre-compute PEM bytes for each private key's public key.
 	type privEntry struct {
 		pem []byte
@@ -195,6 +198,12 @@ func matchPrivKeys(env *Envelope, privKeys []crypto.PrivKey) (map[int]crypto.Pri
 	}
 	privEntries := make([]privEntry, 0, len(privKeys))
 	for _, priv := range privKeys {
+		if priv == nil {
+			continue
+		}
+		if edk, ok := priv.(*crypto.Ed25519PrivateKey); ok && edk == nil {
+			continue
+		}
 		pem, err := keypem.MarshalPubKeyPem(priv.GetPublic())
 		if err != nil {
 			continue
@@ -202,13 +211,12 @@ func matchPrivKeys(env *Envelope, privKeys []crypto.PrivKey) (map[int]crypto.Pri
 		privEntries = append(privEntries, privEntry{pem: pem, key: priv})
 	}
 
-	result := make(map[int]crypto.PrivKey)
+	result := make(map[int][]crypto.PrivKey)
 	for ki, ekp := range env.GetKeypairs() {
 		pubBytes := ekp.GetPubKey()
 		for _, pe := range privEntries {
 			if bytes.Equal(pubBytes, pe.pem) {
-				result[ki] = pe.key
-				break
+				result[ki] = append(result[ki], pe.key)
 			}
 		}
 	}
